@@ -1715,6 +1715,7 @@ def run(ck: core.Check):
     unobs: dict[str, int] = {}
     adapt_hist: dict[str, int] = {}
     pf_hist: dict[str, int] = {}
+    contract_hist: dict[str, int] = {}
     for (mi, call, ctx), real, ans in zip(descr, reals, answers):
         if "unobservable" in real:
             facet = real["unobservable"].split(":")[0]
@@ -1732,6 +1733,16 @@ def run(ck: core.Check):
         if "adapt" in real:
             ak = "converter-raised" if real.get("adapt_conv_raised") else ("converted" if real.get("adapt_called") else "kept")
             adapt_hist[ak] = adapt_hist.get(ak, 0) + 1
+        am = ans.get("adapt") if isinstance(ans, dict) else None
+        if isinstance(am, dict) and am.get("converts") and real.get("adapt_called") and not real.get("adapt_conv_raised"):
+            contract_hist["checked"] = contract_hist.get("checked", 0) + 1
+            if am.get("convInits"):
+                contract_hist["converter-introduced-initializers"] = contract_hist.get("converter-introduced-initializers", 0) + 1
+            if am.get("contract") is False:
+                contract_hist["violated"] = contract_hist.get("violated", 0) + 1
+                if contract_hist["violated"] <= 2:
+                    ck.broken("correspondence", "C08 the converter's actual result violates the syntactic part of ConverterContract",
+                              f"model#{mi} {json.dumps(L.summary(models[mi][0]))[:400]}")
         if isinstance(ans, dict) and ans.get("prefixFree") and real.get("emit") == "ScopeError":
             d_pf = "prefix-free scope but the real to_onnx raised ScopeError"
             ck.broken("correspondence", "C08 rename_total", d_pf)
@@ -1770,6 +1781,7 @@ def run(ck: core.Check):
     ck.cov["correspondence_unobservable"] = unobs
     ck.cov["adapt_correspondence"] = adapt_hist
     ck.cov["scope_prefix_free"] = pf_hist
+    ck.cov["converter_contract_syntactic"] = contract_hist
 
     # ---- evaluator correspondence: Inline.evalModel (integer interpreter) vs onnxruntime
     ev_reqs, ev_expect = [], []
